@@ -5,6 +5,7 @@ changes nothing else (frame).
 """
 from bumble import hci
 from bumble import host as _host
+from bumble import l2cap as _l2cap
 from pyvc import ext_c16  # noqa: F401  (iteration over symbolic maps)
 from pyvc.ext_c16 import forall_keys
 from pyvc.contracts import (Any, Bool, Callback, Const, DequeOf, Event, Inst, Int, IntRange, ListOf, MapOf, OneOf, Opaque, Opt, TupleOf, contract,
@@ -629,4 +630,90 @@ contract(
     modifies=['self.channels.present', 'self.le_coc_channels.present', 'self.pending_credit_based_connections.present', 'self.identifiers.present',
               'self.pending_credit_based_connections.value', 'ghost.ab_src', 'ghost.ab_dst'],
     inline=['KeyView.*'] + FUT_INLINE,
+)
+
+
+# ---------------------------------------------------------------------------
+# L2CAP channels: abort() (link loss) releases whoever waits on the channel, in every state, without raising
+# ---------------------------------------------------------------------------
+def ch_emit(ghost, name, *args):
+    ghost.closes = ghost.closes + (1 if name == 'close' else 0)
+
+
+def mgr_on_channel_closed(ghost, channel):
+    ghost.closed_told = ghost.closed_told + 1
+
+
+model('ghost:ChannelManager#c16a', fields={}, methods={'on_channel_closed': Callback('on_channel_closed', effect=mgr_on_channel_closed)})
+CLASSIC_STATES = tuple(int(x) for x in _l2cap.ClassicChannel.State)
+LE_STATES = tuple(int(x) for x in _l2cap.LeCreditBasedChannel.State)
+model(
+    'bumble.l2cap:ClassicChannel#c16',
+    fields=dict(state=OneOf(*_l2cap.ClassicChannel.State), connection_result=Opt(FUT), disconnection_result=Opt(FUT)),
+    methods={'emit': Callback('emit', effect=ch_emit)},
+)
+model(
+    'bumble.l2cap:LeCreditBasedChannel#c16',
+    fields=dict(state=OneOf(*_l2cap.LeCreditBasedChannel.State), connection_result=Opt(FUT), disconnection_result=Opt(FUT), manager=Inst('ghost:ChannelManager#c16a')),
+    methods={'emit': Callback('emit', effect=ch_emit)},
+)
+CH_GHOST = dict(closes=Int, closed_told=Int)
+
+CL = _l2cap.ClassicChannel.State
+LE = _l2cap.LeCreditBasedChannel.State
+
+
+def lemma_classic_abort(ch, ghost):
+    """link loss on a classic channel, in any state and with its two futures in any state"""
+    state0, closes0 = ch.state, ghost.closes
+    connecting, disconnecting = ch.connection_result, ch.disconnection_result
+    connecting_state0 = fst(connecting)
+    ch.abort()
+    # ClassicChannel.disconnect awaits disconnection_result bare: link loss must finish it
+    assert fut_released(disconnecting), 'disconnect-waiter-released'
+    # connect() awaits connection_result wrapped in cancel_on_disconnection: abort may leave it alone
+    assert fst(connecting) == connecting_state0 or fut_released(connecting), 'connect-waiter-left-to-cancel-on-disconnection'
+    # an established (or closing) channel ends closed and says so exactly once
+    if state0 == CL.OPEN or state0 == CL.WAIT_DISCONNECT:
+        assert ch.state == CL.CLOSED and ghost.closes == closes0 + 1, 'open-channel-closed-once'
+    else:
+        assert ghost.closes == closes0, 'no-close-event-for-a-channel-that-never-opened'
+
+
+lemma(
+    'classic_channel_abort',
+    lemma_classic_abort,
+    prop='C16',
+    params=dict(ch=Inst('bumble.l2cap:ClassicChannel#c16')),
+    ghost=CH_GHOST,
+    modifies=['ch.state', 'ch.disconnection_result', 'ch.disconnection_result.st', 'ghost.closes'],
+    inline=['ClassicChannel.abort', 'ClassicChannel._change_state'] + FUT_INLINE,
+    note='no exception may escape ClassicChannel.abort (it runs inside the loop of ChannelManager.on_disconnection)',
+)
+
+
+def lemma_le_coc_abort(ch, ghost):
+    """link loss on an LE credit-based channel, in any state and with its two futures in any state (e.g. already
+    cancelled because the caller of connect()/disconnect() gave up)"""
+    state0, closes0, told0 = ch.state, ghost.closes, ghost.closed_told
+    connecting, disconnecting = ch.connection_result, ch.disconnection_result
+    ch.abort()
+    # connect() and disconnect() await their futures bare: link loss must finish both
+    assert fut_released(connecting) and ch.connection_result is None, 'connect-waiter-released'
+    assert fut_released(disconnecting) and ch.disconnection_result is None, 'disconnect-waiter-released'
+    if state0 == LE.CONNECTED or state0 == LE.DISCONNECTING:
+        assert ch.state == LE.DISCONNECTED and ghost.closes == closes0 + 1 and ghost.closed_told == told0 + 1, 'connected-channel-closed-once'
+    else:
+        assert ghost.closes == closes0, 'no-close-event-for-a-channel-that-never-opened'
+
+
+lemma(
+    'le_coc_channel_abort',
+    lemma_le_coc_abort,
+    prop='C16',
+    params=dict(ch=Inst('bumble.l2cap:LeCreditBasedChannel#c16')),
+    ghost=CH_GHOST,
+    modifies=['ch.state', 'ch.connection_result', 'ch.disconnection_result', 'ch.connection_result.st', 'ch.disconnection_result.st', 'ghost.closes', 'ghost.closed_told'],
+    inline=['LeCreditBasedChannel.abort', 'LeCreditBasedChannel._change_state'] + FUT_INLINE,
+    note='no exception may escape LeCreditBasedChannel.abort (it runs inside the loops of ChannelManager.on_disconnection)',
 )
